@@ -114,6 +114,7 @@ fn format_via_uucore(
     // even if there's no format arguments.
     while format_args.is_empty() || !format_args_wrapper.is_exhausted() {
         // Process all format items, in order. We'll bail when we're told to stop.
+        let mut stop = false;
         for item in &format_items {
             let control_flow = item
                 .write(&mut writer, &mut format_args_wrapper)
@@ -127,8 +128,15 @@ fn format_via_uucore(
                 })?;
 
             if control_flow == ControlFlow::Break(()) {
+                stop = true;
                 break;
             }
+        }
+
+        // N.B. `\c` ends all output, it does not merely end this pass over the format: with
+        // arguments still unconsumed the format would otherwise be re-run forever.
+        if stop {
+            break;
         }
 
         // If the format string doesn't consume any arguments, stop now; otherwise we'd reprocess
